@@ -214,7 +214,7 @@ func c14Immutable(c *core.Ctx) {
 		if !call.Call.IsInvoke() {
 			args = args[1:]
 		}
-		if len(args) != 3 || !argIsParam(args[1], pm, 2) || !argIsParam(args[2], pm, pTag) {
+		if len(args) != 3 || !argIsParam(resolveUp(args[1], pm, 3), pm, 2) || !argIsParam(resolveUp(args[2], pm, 3), pm, pTag) {
 			return nil
 		}
 		return call
@@ -250,15 +250,16 @@ func c14Immutable(c *core.Ctx) {
 			continue
 		}
 		ok := false
-		for _, cd := range conds {
+		// also what `found == false` / `err == nil` of a private checking helper implies
+		forEachCondImplied(p.Block(), 2, func(cd facts.Cond) {
 			x, isNil, okc := facts.NilCheck(cd)
 			if !okc || isNil {
-				continue
+				return
 			}
 			if ex, isEx := facts.Resolve(x).(*ssa.Extract); isEx && ex.Index == 1 && isResolve(ex.Tuple) != nil {
 				ok = true
 			}
-		}
+		})
 		c.Check(ok, "C14.R2", "Immutable.PushManifest/tagged-push-guard", p.Pos(), "tagged push dominated by 'ResolveTag(repo, tag) failed'", "a tagged manifest is pushed to the wrapped registry on a path where the tag may already resolve: an existing tag can be moved")
 	}
 	// success returns on the tagged path
